@@ -42,5 +42,6 @@ std::string gen_plan(const std::string &prop, uint64_t base_seed, uint64_t idx, 
 void exec_plan(const std::string &text, bool verbose);
 sim::RunResult classify_crash(const sim::CrashInfo &ci);
 std::vector<std::string> simplify_line(const std::string &line);
+void confirm_violation(sim::Engine &e, const std::string &plan, sim::RunResult &r);
 
 }  // namespace net
